@@ -454,6 +454,56 @@ func cmdConc(prop string, args []string) int {
 			samples = append(samples, idx[fmt.Sprint(id)])
 		}
 	}
+	// requests for DIFFERENT keys at the same time do not touch each other's records: five clients, one key each, each
+	// with its own sequence of proposal slots and attestation epochs; afterwards every key's records are exactly the
+	// last duty of its own sequence, and every duty of the sequences was signed
+	if prop == "C04" && stats["stuck"] == 0 {
+		plain, err := NewInstance(ctx, fx, InstanceOpts{AdminIPs: []string{"10.0.0.1"}, Perms: permsFromTbl(stdPermTbl)})
+		if err == nil {
+			const perKey = 50
+			var wg sync.WaitGroup
+			var fmu sync.Mutex
+			refused := 0
+			for ki := 0; ki < 5; ki++ {
+				wg.Add(1)
+				go func(ki int) {
+					defer wg.Done()
+					a := fx.Accounts[ki]
+					base := uint64(100000 * (ki + 1))
+					for j := uint64(0); j < perKey; j++ {
+						pop := &Op{Kind: KPropose, Client: "client1", IP: "10.0.0.1", Addrs: []Addr{{Name: a.Path()}},
+							Props: []PropData{{Dom: mkDomain(domProposer, 0), Slot: base + j, Pidx: 1, Parent: fill32(0), State: fill32(1), Body: fill32(1)}}}
+						aop := &Op{Kind: KAttest, Client: "client1", IP: "10.0.0.1", Addrs: []Addr{{Name: a.Path()}},
+							Atts: []AttData{{Dom: mkDomain(domAttester, 0), BBR: fill32(1), Src: &Checkpoint{base + j, fill32(0)}, Tgt: &Checkpoint{base + j + 1, fill32(1)}}}}
+						for _, op := range []*Op{pop, aop} {
+							obs, err := plain.ExecCtx(ctx, op)
+							if err != nil || len(obs) != 1 || obs[0].State != core.ResultSucceeded {
+								fmu.Lock()
+								refused++
+								if refused <= 3 {
+									monFail = append(monFail, fmt.Sprintf("five clients with a key each: the advancing duty %s of key#%d's own sequence was not signed (%v)", op, a.ID, obs))
+								}
+								fmu.Unlock()
+							}
+						}
+					}
+				}(ki)
+			}
+			wg.Wait()
+			if sv, err := plain.ReadStore(ctx); err == nil {
+				for ki := 0; ki < 5; ki++ {
+					a := fx.Accounts[ki]
+					base := int64(100000 * (ki + 1))
+					if sv.Prop[a.ID] != base+perKey-1 || sv.Att[a.ID].Src != base+perKey-1 || sv.Att[a.ID].Tgt != base+perKey {
+						monFail = append(monFail, fmt.Sprintf("five clients with a key each: key#%d signed proposals up to slot %d and attestations up to %d->%d, but its records say slot %d and %d->%d (another key's request wrote or read here)",
+							a.ID, base+perKey-1, base+perKey-1, base+perKey, sv.Prop[a.ID], sv.Att[a.ID].Src, sv.Att[a.ID].Tgt))
+					}
+				}
+			}
+			stats["separate-keys.requests"] = 5 * perKey * 2
+			plain.Close(ctx)
+		}
+	}
 	// a caller that gives up while its request sits between the read and the write of a record: the
 	// request must either not write at all or keep excluding rivals until it has written
 	if prop == "C04" && stats["stuck"] == 0 {
